@@ -36,7 +36,6 @@ HARNESSES = {
     'enc_field_a': (False, 'fixed shape (name, no type name, no docs), id symbolic', ['derived Encode of Field'], 1200, 14),
     # stand-ins for functions left external in the Verus units
     'builder_new_is_empty': (True, 'none (no inputs)', ['src/portable.rs PortableRegistryBuilder::new'], 600, 14),
-    'builder_finish_lists_values': (False, '<= 3 registrations over 3 distinct values', ['src/portable.rs PortableRegistryBuilder::finish'], 3600, 14),
     'map_into_portable_in_order': (False, '<= 3 elements', ['src/registry.rs Registry::map_into_portable'], 1200, 14),
     'metatype_new_identity': (True, 'none (fixed pool of types, no symbolic input)', ['src/meta_type.rs MetaType::new / type_id / is_phantom'], 600, 14),
 }
